@@ -213,7 +213,7 @@ func (e *Engine) Pin(m map[string]uint64) { e.pinned = m }
 var initWhitelist = map[string]bool{
 	"errors": true, "io": true, "io/fs": true, "internal/oserror": true, "bytes": true, "path": true,
 	"path/filepath": true, "unicode/utf8": true, "unicode/utf16": true, "hash/crc32": true, "sort": true,
-	"strings": true, "encoding/binary": true, "io/ioutil": true, "internal/bytealg": false, "math": true,
+	"strings": true, "encoding/binary": true, "github.com/klauspost/reedsolomon": true, "io/ioutil": true, "internal/bytealg": false, "math": true,
 }
 
 func initAllowed(path string) bool {
